@@ -36,11 +36,9 @@ class SourceToSourceTransformationBase:
         self = object.__new__(cls)
         if isinstance(codeblock, PythonBlock):
             self.input = codeblock
-        elif isinstance(codeblock, FileText):
-            self.input = PythonBlock(codeblock)
         else:
-            if not codeblock.endswith('\n'):
-                codeblock += '\n'
+            # The text is taken as it is: whether it ends with a newline is
+            # part of the input and is preserved in the output.
             self.input = PythonBlock(codeblock)
         self.preprocess()
         return self
